@@ -136,6 +136,49 @@ def run(tier: str) -> int:
             stats["searched_rest_of_corpus_for_a_failing_part"] = len(rest)
         except Exception as e:
             broken.append(Broken("correspondence", "search of the rest of the corpus", str(e)[-800:]))
+    # counter sweep: the instructions that use SEVERAL compiler temporaries, compiled as a Compiler would whose temporary counter stands just
+    # below a digit-length boundary (h_tmp9 / h_tmp10, h_tmp99 / h_tmp100): the translation must be the same up to the numbering
+    # (model: proofs/HShift.v), in particular the order in which the pending operations are sequenced
+    try:
+        multi = [r["name"] for r in results if r.get("ok") and (r.get("hpost") or 0) - (r.get("hpre") or 0) >= 2]
+        if multi:
+            starts = [9] * len(multi) + ([8] * len(multi) + [99] * len(multi) if tier != "quick" else [99] * min(8, len(multi)))
+            names_sw = multi + (multi + multi if tier != "quick" else rnd.sample(multi, min(8, len(multi))))
+            with common.Lock():
+                res_sw = corpus.compile_insns(names_sw, hstart=starts)
+                out_sw, _, _ = corpus.evaluate("C01_sweep", res_sw, diffrun.seeds_for("quick", common.seed()), noped)
+            by_sw = {r["id"]: r for r in res_sw}
+            n_sw = 0
+            for i, parts in out_sw.items():
+                r = by_sw[i]
+                for j, p in enumerate(parts):
+                    n_sw += 1
+                    if r["name"] in known_sites:
+                        continue
+                    if p["k2"] not in (0, 1):
+                        k2_bad.append((r["name"] + f"@h_tmp{r.get('hpre')}", j, p["k2"]))
+                    if p.get("bad"):
+                        fails.append((r["name"], j, dict(p, counter_at_entry=r.get("hpre"))))
+                        results.append(dict(r, id=-1 - len(results)))
+            # parts on which the code at this counter and the model disagree: does the real effect read a temporary before writing it?
+            # (sem/TmpCheck.tdefS, sound by proofs/TmpCheckProofs.v: the C value of such a run is then the value of a stale temporary)
+            dis_sw = [(i, j) for i, parts in out_sw.items() for j, p in enumerate(parts) if p["k2"] in (2, 3, 4) and by_sw[i]["name"] not in known_sites]
+            if dis_sw:
+                _, _, bodies_sw = corpus.evaluate("C01_sweep_b", [by_sw[i] for i, _ in dis_sw], [], noped)
+                cases_sw = [(f"{i}#{j}", by_sw[i]["asts"][j], bodies_sw[(i, j)]) for i, j in dis_sw if (i, j) in bodies_sw and by_sw[i].get("asts") and by_sw[i]["asts"][j]]
+                with common.Lock():
+                    pr = diffrun.probe("C01_sweep_t", cases_sw, diffrun.seeds_for("quick", common.seed()))
+                for cid, v in pr.items():
+                    if v and (not v.get("tmpdef") or v.get("bad")):
+                        i_, j_ = cid.split("#")
+                        r = by_sw[int(i_)]
+                        fails.append((r["name"], int(j_), {"bad": v.get("bad"), "flags": v.get("flags"), "counter_at_entry": r.get("hpre"),
+                                                           "what": "compiled at this value of the temporary counter the emitted effect reads a compiler temporary before "
+                                                                   "it is written (the pending operations are sequenced in another order than at counter 0)",
+                                                           "emitted_at_that_counter": r["texts"][int(j_)]}))
+            stats["counter_sweep"] = {"instructions_with_several_temporaries": len(multi), "compilations": len(names_sw), "parts": n_sw}
+    except Exception as e:
+        broken.append(Broken("correspondence", "counter sweep of multi-temporary instructions", str(e)[-800:]))
     # which accepted parts are covered by the END-TO-END THEOREM (FragCheck.covered_correct: statement fragment + the real
     # configuration translates like the repaired one)?  For those, correctness is a theorem instance + the K2 equality of this run.
     covered_names = []
@@ -166,8 +209,8 @@ def run(tier: str) -> int:
         res.violation({"what": "the emitted effect of a bundled instruction part disagrees with the C semantics of its behaviour text "
                                "(differential oracle) and the part is not a listed call site",
                        "insn": name, "part": j, "input": r["behaviors"][j] if "behaviors" in r else None,
-                       "failing_state_seed_and_kind": p.get("bad"), "guard_flags": p.get("flags"),
-                       "emitted": r["texts"][j] if r.get("ok") else None, "broken": [vars(x) for x in broken],
+                       "failing_state_seed_and_kind": p.get("bad"), "guard_flags": p.get("flags"), "temporary_counter_at_entry": p.get("counter_at_entry", 0),
+                       "emitted": p.get("emitted_at_that_counter") or (r["texts"][j] if r.get("ok") else None), "detail": p.get("what"), "broken": [vars(x) for x in broken],
                        "all_failing": [(n, jj) for n, jj, _ in fails[:30]]})
     if broken and not fails:
         res.violation({"what": "a proof obligation, translator or correspondence no longer checks; the differential oracle over "
